@@ -178,8 +178,8 @@ class DynReader {
   St Read(uint8_t* byte) {
     St st;
     if (Pre("r1", 1, &st)) { *byte = 0; return st; }
-    if (Guard(1)) { *byte = 0; return Post(St{}, 1); }
     st = impl_->Read1(byte);
+    Observe(1, st);
     return Post(st, 1);
   }
   template <typename T>
@@ -187,16 +187,16 @@ class DynReader {
     const size_t nbytes = static_cast<size_t>(end - begin) * sizeof(T);
     St st;
     if (Pre("rn", nbytes, &st)) return st;
-    if (Guard(nbytes)) return Post(St{}, nbytes);
     st = impl_->ReadN(static_cast<void*>(begin), nbytes);
+    Observe(nbytes, st);
     return Post(st, nbytes);
   }
   St Skip(size_t n) {
     St st;
     if (Pre("skip", n, &st)) return st;
     if (!impl_->HasSkip()) { unsupported = true; return Post(nop::ErrorStatus::DebugError, 0); }
-    if (Guard(n)) return Post(St{}, n);
     st = impl_->Skip(n);
+    Observe(n, st);
     return Post(st, n);
   }
   template <typename HandleType>
@@ -207,6 +207,15 @@ class DynReader {
     if (ref == nop::kEmptyHandleReference) {
       Post(St{}, 0);
       return HandleType{};
+    }
+    if (affine_handles) {
+      // harness-defined resolution protocol: reference = 2 * value + 7
+      if (ref >= 7 && ((ref - 7) % 2) == 0) {
+        Post(St{}, 0);
+        return HandleType{static_cast<typename HandleType::Type>((ref - 7) / 2)};
+      }
+      Post(nop::ErrorStatus::InvalidHandleReference, 0);
+      return nop::ErrorStatus::InvalidHandleReference;
     }
     auto it = handle_table.find(ref);
     if (it == handle_table.end()) {
@@ -237,6 +246,7 @@ class DynReader {
   std::vector<Call> calls;
   std::vector<int64_t> got;
   std::map<int64_t, int64_t> handle_table;
+  bool affine_handles = false;
   bool log = true;
   bool unsupported = false;
   bool has_oob = false;
@@ -269,14 +279,14 @@ class DynReader {
     if (log) { AllocPause ap; calls.push_back(cur_); }
     return st;
   }
-  // Out-of-range guard for kinds whose Read/Skip are documented as unchecked.
-  bool Guard(uint64_t n) {
-    if (!unchecked_) return false;
+  // Observation: a buffer-backed reader granted a request for more bytes than
+  // its source holds (it delivered memory that is not part of the input).
+  void Observe(uint64_t n, const St& st) {
+    if (!buffer_backed_ || !st) return;
     uint64_t rem = pos_ <= srclen_ ? srclen_ - pos_ : 0;
-    if (n <= rem) return false;
+    if (n <= rem) return;
     if (!has_oob) { has_oob = true; oob = cur_; }
     dead_ = true;
-    return true;
   }
 
   std::unique_ptr<RImpl> impl_;
@@ -287,7 +297,7 @@ class DynReader {
   long fault_k_ = 0;
   int fault_e_ = 0;
   bool failed_ = false;
-  bool unchecked_ = false;
+  bool buffer_backed_ = false;
   bool dead_ = false;
   Call cur_{};
   std::string tmpfile_;
@@ -423,6 +433,7 @@ class DynWriter {
     pushed.push_back(static_cast<int64_t>(handle.get()));
     int64_t ref;
     if (!handle) ref = nop::kEmptyHandleReference;
+    else if (affine_handles) ref = 2 * static_cast<int64_t>(handle.get()) + 7;
     else if (next_ref_ < refs.size()) ref = refs[next_ref_++];
     else ref = static_cast<int64_t>(auto_ref_++);
     returned.push_back(ref);
@@ -456,6 +467,7 @@ class DynWriter {
   std::vector<Call> calls;
   std::vector<uint8_t> attempted;  // bytes handed to successful primitives
   std::vector<int64_t> pushed, returned, refs;
+  bool affine_handles = false;
   bool log = true;
   bool unsupported = false;
   bool has_oob = false;
